@@ -367,9 +367,7 @@ PARSER_FNS = ('params::BaseChoice::from_str', 'params::DHChoice::from_str', 'par
               'params::patterns::HandshakePattern::from_str', 'params::patterns::HandshakePattern::as_str',
               'params::patterns::HandshakeModifier::from_str', 'params::patterns::HandshakeModifierList::from_str',
               'params::patterns::HandshakeChoice::from_str', 'params::patterns::HandshakeChoice::parse_pattern_and_modifier',
-              'params::patterns::HandshakeChoice::is_fallback', 'params::patterns::lemma_handshake_pattern_unique',
-              'params::patterns::lemma_mod_literals', 'params::patterns::lemma_mod_tok_unique', 'params::patterns::lemma_modlist_first_char',
-              'params::patterns::lemma_pat_inj', 'params::patterns::lemma_pat_shape', 'pgram::', 'pspec::')
+              'params::patterns::HandshakeChoice::is_fallback', 'params::patterns::lemma_', 'pgram::', 'pspec::')
 
 UNITS = [
     {'name': 'core', 'build': 'core', 'flags': [], 'prefixes': None, 'trusted': 'trusted.txt'},
@@ -828,7 +826,7 @@ def check_property(pid, tier, res=None, vres=None, quiet=False):
 ALWAYS_PROBE = {'C10'}
 
 ASSUMPTIONS_COMMON = [
-    'Extraction rules R1-R19 (framework/extract.py, DESIGN.md 2.1) preserve the semantics of /repo/src; dropped items are unverified',
+    'Extraction rules R1-R22 incl. R7p (framework/extract.py, DESIGN.md 2.1) preserve the semantics of /repo/src; dropped items are unverified',
     'Trait contracts of Hash/Cipher/Dh/Random/CryptoResolver are ASSUMED for implementations outside the verified text (ring.rs, P-256, XChaChaPoly, Kyber, custom resolvers); for resolvers/default.rs they are proved relative to ASSUMED contracts of the third-party crates (spec/deps/rustcrypto.rs)',
     'The standard algorithms (SHA-2, BLAKE2, ChaCha20-Poly1305, AES-256-GCM, X25519) are uninterpreted functions; randomness is a deterministic function of a hidden RNG state (gen_bytes/gen_next)',
     'Path-split verification (DESIGN.md 2.3): functions with @split cases are verified one case per query, the other cases cut by framework-inserted assume(false)',
@@ -838,7 +836,13 @@ ASSUMPTIONS_COMMON = [
     'Machine arithmetic is modelled exactly (every usize/u64 operation carries an overflow obligation); usize width left open (32 or 64 bit)',
     'Features: default + std; hfs, risky-raw-split, nightly and no_std builds are not verified',
 ]
-PROP_ASSUMPTIONS = {}
+PROP_ASSUMPTIONS = {
+    'C13': ["Parser unit: the std contracts stated in spec/parser/00_strings.rs are ASSUMED (str::parse = FromStr::from_str; s[a..b] returns the byte sub-range; "
+            "<u8 as FromStr>::from_str accepts an optional '+' then decimal digits with value <= 255; <[T]>::contains; derive(PartialEq) on HandshakeModifier is structural); "
+            "the shims of R20-R22 (str_eq, split, starts_with) behave as the std calls they wrap; axiom ax_str_len_fits",
+            "The grammar is stated over the string's char sequence with split-on-separator fields (spec/parser/10_grammar.rs); pskN uses std's u8 syntax (psk01 = psk1); "
+            "the hfs variant of NoiseParams::from_str (feature hfs) is not verified"],
+}
 
 
 def undecided_fallback(pids, tier, why):
